@@ -963,3 +963,28 @@ def safe_field_of_selected_element(module: Node, rows: list[_AliasRow]) -> str:
     except StopIteration:
         return module
     return row.label + module[len(row.module):]
+
+
+class _Graph:
+    def __init__(self, level_limit: int) -> None:
+        self._level_limit = level_limit
+
+    def _flatten(self, node: Node) -> Node:
+        node_parts = node.split(".")
+        return ".".join(node_parts[: self._level_limit + 1])
+
+    def unsafe_prefix_is_a_flattened_name(self, importer: Node, importee: Node) -> bool:
+        flattened_importer = self._flatten(importer)
+        return importee.startswith(flattened_importer)
+
+    def unsafe_hierarchy_read_off_the_node_names(self, supposed_parent_node: Node, supposed_child_node: Node) -> bool:
+        return supposed_child_node != supposed_parent_node and supposed_child_node.startswith(supposed_parent_node)
+
+    def safe_prefix_is_a_flattened_name_plus_separator(self, importer: Node, importee: Node) -> bool:
+        flattened_importer = self._flatten(importer)
+        return importee == flattened_importer or importee.startswith(flattened_importer + ".")
+
+
+def _caller_of_graph_methods(graph: _Graph, worklist: list, prefix: str) -> bool:
+    node = worklist.pop()
+    return graph.unsafe_hierarchy_read_off_the_node_names(node, prefix + ".") or graph.unsafe_prefix_is_a_flattened_name(node, node)
